@@ -10,7 +10,7 @@ import copy
 import gc
 
 from ref import classes as RC
-from sim import core, histsim
+from sim import allocsim, core, histsim
 
 from . import avops, common
 
@@ -440,9 +440,13 @@ def execute(case):
             pm.Av.clear_cache()
             gc.collect()
             first = [common.mk_av(c["basis"], "list") for c in classes]
-            old_ids = {id(h) for h in first}
+            old_ids = {id(h): ci for ci, h in enumerate(first)}
+            av_items = tuple.__len__(first[0]) if first and isinstance(first[0], tuple) else None
             for ci, h in enumerate(first):
                 avops.run_query(h, {"op": "count", "n": min(op["n"], classes[ci]["nmax"])})
+            # built before the old objects are freed: basis elements of length 2-3 are of the
+            # size class of a class object and would settle in the freed blocks
+            new_bases = [common.mk_basis_obj(c["basis"]) for c in classes]
             if op.get("mode") == "stale_after_clear":
                 pm.Av.clear_cache()
                 for ci, h in enumerate(first):
@@ -456,9 +460,21 @@ def execute(case):
             order = list(range(len(classes)))
             order = order[1:] + order[:1]
             for ci in order:
-                handles[ci] = common.mk_av(classes[ci]["basis"], "list")
+                # the freed blocks sit somewhere down the allocator's free list: dig for one
+                # (allocsim.aim) so that the new class object really is allocated where an old
+                # one - of another class whenever there is a choice - used to be
+                wanted = {a for a, owner in old_ids.items() if owner != ci} or set(old_ids)
+                _addr, held = allocsim.aim(pm.Av, av_items, wanted)
+                held[-1] = None
+                handles[ci] = pm.Av(new_bases[ci])
+                del held
+                out.probe("recycled_class_object_created")
+                if _addr is None:
+                    out.probe("aim_found_no_freed_block")
                 if id(handles[ci]) in old_ids:
                     out.probe("class_object_address_reused")
+                    if old_ids.pop(id(handles[ci])) != ci:
+                        out.probe("class_object_at_address_of_another_class")
             out.fault("recycle_class_objects")
             hist.log.add("recycle", idx)
             for ci in order:
